@@ -49,15 +49,14 @@ func (rt *runtime) cmplEvaluateNodeExpression(node nodeExpression) Value {
 		return rt.cmplEvaluateNodeDotExpression(node)
 
 	case *nodeFunctionLiteral:
-		local := rt.scope.lexical
-		if node.name != "" {
-			local = rt.newDeclarationStash(local)
+		if node.name == "" {
+			return objectValue(rt.newNodeFunction(node, rt.scope.lexical))
 		}
-
+		// 13: the name of a function expression is an immutable binding in a
+		// fresh declarative environment (assignments to it are ignored).
+		local := rt.newDeclarationStash(rt.scope.lexical)
 		value := objectValue(rt.newNodeFunction(node, local))
-		if node.name != "" {
-			local.createBinding(node.name, false, value)
-		}
+		local.property[node.name] = dclProperty{value: value, mutable: false, deletable: false, readable: true}
 		return value
 
 	case *nodeIdentifier:
